@@ -424,8 +424,8 @@ func c26(c *core.Ctx) {
 				val := types.ExprString(as.Rhs[0])
 				key := "(*opcua.Client).monitor·case " + curCase + "·action = " + val
 				if lp := innermost(); lp != nil && lp != ast.Node(stateLoop) {
-					if rs, ok := lp.(*ast.RangeStmt); ok {
-						key += " (in range " + types.ExprString(rs.X) + ")"
+					if _, ok := lp.(*ast.RangeStmt); ok {
+						key += " (in an inner range loop)" // not the name of what is ranged over: a local may be renamed
 					}
 				}
 				lp := innermost()
@@ -557,8 +557,15 @@ func c26(c *core.Ctx) {
 					continue
 				}
 				name := fname(f)
-				if name == "opcua.NewClient" {
-					c.Ob("C26.acks", name+"·"+a.Kind.String()+" pendingAcks", pos(c, a.Use), true, "constructor: the client is not shared yet")
+				// the constructor, wherever it lives: the Client written to was allocated in this very function
+				fresh := false
+				if fa, ok := a.Instr.(*ssa.FieldAddr); ok {
+					if al, ok := ssax.Strip(fa.X).(*ssa.Alloc); ok && al.Heap {
+						fresh = true
+					}
+				}
+				if name == "opcua.NewClient" || fresh {
+					c.Ob("C26.acks", "opcua.NewClient·"+a.Kind.String()+" pendingAcks", pos(c, a.Use), true, "constructor: the client is not shared yet")
 					continue
 				}
 				held := ls.HeldAt(a.Use)
